@@ -93,6 +93,14 @@ impl Part {
 struct Ctx {
     deck: &'static str,
     table: Vec<(Permutation, Pi)>, // exhaust() rows with the relabeling they denote
+    low: Vec<u8>,                  // the four lowest cards of the deck
+}
+impl Ctx {
+    /// a pre-flop observation whose pocket shares no card with `pocket` (an unrelated hand)
+    fn cold_for(&self, pocket: u64) -> (u64, u64) {
+        let free: Vec<u8> = self.low.iter().copied().filter(|c| pocket >> c & 1 == 0).collect();
+        (1u64 << free[0] | 1u64 << free[1], 0)
+    }
 }
 
 fn street(n: u32) -> &'static str {
@@ -249,7 +257,6 @@ fn subsets2(cards: &[u8]) -> Vec<(u64, u64)> {
 }
 
 fn seq_group(ctx: &Ctx, part: &mut Part, cards: &[u8], lines: bool, rot: usize, rng: &mut Rng) {
-    let deck = ctx.deck;
     let mut obs = subsets2(cards);
     let nsplit = obs.len();
     obs.rotate_left(rot % nsplit);
@@ -271,11 +278,19 @@ fn seq_group(ctx: &Ctx, part: &mut Part, cards: &[u8], lines: bool, rot: usize, 
     // 5. an observation, a relabeling of it, the observation again, in reverse order of the splits
     script.extend([Step::Canon(0), Step::Canon(img), Step::Canon(0)]);
     (0..nsplit).rev().for_each(|x| script.push(Step::Canon(x)));
+    run_script(ctx, part, &obs, &script, &[(0, img)], lines, "re-split");
+    *part.dist.entry(format!("sequence cards={} splits={nsplit}", cards.len())).or_insert(0) += 1;
+}
+
+/// run a script of calls tightly on the current thread, then judge every recorded answer for its own observation
+fn run_script(ctx: &Ctx, part: &mut Part, obs: &[(u64, u64)], script: &[Step], same_orbit: &[(usize, usize)], lines: bool, label: &str) {
+    let deck = ctx.deck;
     // ---- run the script tightly on this thread
     let mk = |(p, b): (u64, u64)| Observation::from((Hand::from(p), Hand::from(b)));
     let mut canon_ans: Vec<(usize, Option<(u64, u64)>)> = Vec::with_capacity(script.len());
     let mut iscanon_ans: Vec<(usize, bool)> = vec![];
-    for st in &script {
+    let mut perm_ans: Vec<(usize, Option<Pi>)> = vec![];
+    for st in script {
         match *st {
             Step::Canon(x) => {
                 let o = obs[x];
@@ -293,7 +308,9 @@ fn seq_group(ctx: &Ctx, part: &mut Part, cards: &[u8], lines: bool, rot: usize, 
             }
             Step::Perm(x) => {
                 let o = obs[x];
-                let _ = catch(move || Permutation::from(&mk(o)));
+                if let Some(r) = catch(move || digits(&Permutation::from(&mk(o)))) {
+                    perm_ans.push((x, r));
+                }
             }
         }
         part.evaluations += 1;
@@ -303,7 +320,7 @@ fn seq_group(ctx: &Ctx, part: &mut Part, cards: &[u8], lines: bool, rot: usize, 
     for (n, (x, r)) in canon_ans.iter().enumerate() {
         let (pocket, board) = obs[*x];
         let op = format!("{deck} canon {pocket} {board}");
-        let input = format!("{deck} pocket={pocket} board={board} (call {n} of a {}-call sequence on one thread over the card set {})", canon_ans.len(), pocket | board);
+        let input = format!("{deck} pocket={pocket} board={board} (call {n} of a {}-call {label} sequence on one thread)", canon_ans.len());
         let Some((cp, cb)) = *r else {
             if lines {
                 part.lines.push((op, "panic".into()));
@@ -312,9 +329,13 @@ fn seq_group(ctx: &Ctx, part: &mut Part, cards: &[u8], lines: bool, rot: usize, 
             continue;
         };
         // the rest of the answer line; none of these goes through Isomorphism::from
+        let cold = ctx.cold_for(pocket);
         let rest = catch(move || {
+            // ask about an unrelated hand first so that this reference answer has no related predecessor
+            let _ = Permutation::from(&mk(cold));
             let o = mk((pocket, board));
             let perm = Permutation::from(&o);
+            let _ = Permutation::from(&mk(cold));
             let icc = catch(move || Isomorphism::is_canonical(&mk((cp, cb))));
             (perm, Isomorphism::is_canonical(&o), icc)
         });
@@ -351,11 +372,36 @@ fn seq_group(ctx: &Ctx, part: &mut Part, cards: &[u8], lines: bool, rot: usize, 
             }
         }
     }
-    // invariance inside the sequence: the relabeled first split has the canonical form of the first split
-    if let (Some(a), Some(b)) = (first[0], first[img]) {
+    // invariance inside the sequence: relabelings of each other have the same canonical form
+    for &(x, y) in same_orbit {
+        if let (Some(a), Some(b)) = (first[x], first[y]) {
+            part.spec_checked += 1;
+            if a != b {
+                part.fail("seq-canon-not-invariant", &format!("{deck} pocket={} board={} and its relabeling pocket={} board={}", obs[x].0, obs[x].1, obs[y].0, obs[y].1), &format!("{} {}", a.0, a.1), &format!("{} {}", b.0, b.1));
+            }
+        }
+    }
+    // Permutation::from asked inside the sequence: it must produce the canonical form, whatever was asked before
+    let mut firstp: Vec<Option<Pi>> = vec![None; obs.len()];
+    for (x, r) in perm_ans {
         part.spec_checked += 1;
-        if a != b {
-            part.fail("seq-canon-not-invariant", &format!("{deck} permute {} {} {}", pistr(&pi), obs[0].0, obs[0].1), &format!("{} {}", a.0, a.1), &format!("{} {}", b.0, b.1));
+        let input = format!("{deck} pocket={} board={} (Permutation::from inside a call sequence)", obs[x].0, obs[x].1);
+        let Some(p) = r else {
+            part.fail("seq-perm-not-four-suits", &input, "four suit images", "unparsable");
+            continue;
+        };
+        if let Some(c) = first[x] {
+            if (relabel(&p, obs[x].0), relabel(&p, obs[x].1)) != c {
+                part.fail("seq-perm-does-not-give-canon", &input, &format!("a permutation taking the observation to {} {}", c.0, c.1), &pistr(&p));
+            }
+        }
+        match firstp[x] {
+            None => firstp[x] = Some(p),
+            Some(f) => {
+                if f != p {
+                    part.fail("seq-perm-depends-on-call-history", &input, &pistr(&f), &pistr(&p));
+                }
+            }
         }
     }
     for (x, r) in iscanon_ans {
@@ -366,7 +412,69 @@ fn seq_group(ctx: &Ctx, part: &mut Part, cards: &[u8], lines: bool, rot: usize, 
             }
         }
     }
-    *part.dist.entry(format!("sequence cards={} splits={nsplit}", cards.len())).or_insert(0) += 1;
+}
+
+/// street walks of one deal: pre-flop → flop → turn → river back-to-back (each child = parent + the
+/// next card(s)), the turn/river cards arriving in several orders, one parent followed by several
+/// children, child → parent → child, the same walks through `is_canonical` and `Permutation::from`,
+/// a relabeled copy of the walk, and every observation once more after an unrelated hand.
+fn walk_group(ctx: &Ctx, part: &mut Part, pocket: u64, board: &[u8], lines: bool, rng: &mut Rng) {
+    let bit = |c: u8| 1u64 << c;
+    let mut obs: Vec<(u64, u64)> = vec![];
+    let mut idx = std::collections::HashMap::new();
+    let mut id = |obs: &mut Vec<(u64, u64)>, o: (u64, u64)| -> usize {
+        *idx.entry(o).or_insert_with(|| {
+            obs.push(o);
+            obs.len() - 1
+        })
+    };
+    let cold = id(&mut obs, ctx.cold_for(pocket));
+    let pre = id(&mut obs, (pocket, 0));
+    let mut script: Vec<Step> = vec![];
+    let mut orbit: Vec<(usize, usize)> = vec![];
+    // the deal in its own order, through each entry point
+    let f0 = bit(board[0]) | bit(board[1]) | bit(board[2]);
+    let main = [pre, id(&mut obs, (pocket, f0)), id(&mut obs, (pocket, f0 | bit(board[3]))), id(&mut obs, (pocket, f0 | bit(board[3]) | bit(board[4])))];
+    script.extend(main.iter().map(|&x| Step::Canon(x)));
+    script.push(Step::Canon(cold));
+    script.extend(main.iter().map(|&x| Step::Perm(x)));
+    script.push(Step::Perm(cold));
+    script.extend(main.iter().map(|&x| Step::IsCanon(x)));
+    script.push(Step::IsCanon(cold));
+    // the five board cards arriving in other orders: choose river card r and turn card t, flop = the rest
+    let mut orders: Vec<(usize, usize)> = (0..5).flat_map(|r| (0..5).filter(move |&t| t != r).map(move |t| (t, r))).collect();
+    let norders = if lines { 6 } else { 20 };
+    for _ in 0..norders.min(orders.len()) {
+        let (t, r) = orders.swap_remove(rng.below(orders.len() as u64) as usize);
+        let all5: u64 = board.iter().fold(0, |a, &c| a | bit(c));
+        let flop = all5 & !bit(board[t]) & !bit(board[r]);
+        let w = [id(&mut obs, (pocket, flop)), id(&mut obs, (pocket, flop | bit(board[t]))), id(&mut obs, (pocket, all5))];
+        match rng.below(3) {
+            0 => script.extend(w.iter().map(|&x| Step::Canon(x))),
+            1 => script.extend(w.iter().flat_map(|&x| [Step::Perm(x), Step::Canon(x)])),
+            _ => script.extend(w.iter().flat_map(|&x| [Step::IsCanon(x), Step::Canon(x)])),
+        }
+        // child → parent → child, and the parent followed by another child
+        script.extend([Step::Canon(w[1]), Step::Canon(w[0]), Step::Canon(w[1])]);
+        let other = id(&mut obs, (pocket, flop | bit(board[r])));
+        script.extend([Step::Canon(w[0]), Step::Canon(other), Step::Canon(w[0]), Step::Canon(w[1]), Step::Canon(w[2])]);
+    }
+    // a relabeled copy of the main walk, walked the same way
+    let pi = ctx.table[1 + rng.below(23) as usize].1;
+    for &x in &main {
+        let (xp, xb) = obs[x];
+        let y = id(&mut obs, (relabel(&pi, xp), relabel(&pi, xb)));
+        script.push(Step::Canon(y));
+        if y != x {
+            orbit.push((x, y));
+        }
+    }
+    // every observation once more right after an unrelated hand
+    for x in 1..obs.len() {
+        script.extend([Step::Canon(cold), Step::Canon(x)]);
+    }
+    run_script(ctx, part, &obs, &script, &orbit, lines, "street-walk");
+    *part.dist.entry("street-walk deals".to_string()).or_insert(0) += 1;
 }
 
 fn cards_of(mask: u64) -> Vec<u8> {
@@ -425,7 +533,7 @@ fn main() {
         Some([0, 1, 2, 3]) => {}
         other => run.fail("identity-is-not-identity", "Permutation::identity()", "0123", &format!("{other:?}")),
     }
-    let ctx = Ctx { deck, table };
+    let ctx = Ctx { deck, table, low: all[..4].to_vec() };
     let allpicks: Vec<usize> = (0..24).collect();
 
     // ---- pre-flop: exhaustive, every relabeling as a line
@@ -537,7 +645,7 @@ fn main() {
 
 
     // ---- call sequences on one thread, the same card sets from several threads at once
-    let ngroups_lines = if a.thorough() { 12_000 } else { 1_500 };
+    let ngroups_lines = if a.thorough() { 12_000 } else { 1_000 };
     let ngroups_more = if a.thorough() { 120_000 } else { 24_000 };
     let mut groups: Vec<Vec<u8>> = vec![];
     for g in 0..ngroups_lines + ngroups_more {
@@ -550,6 +658,24 @@ fn main() {
         };
         groups.push(cards_of(rng.cards(n, pool)));
     }
+    let nwalks_lines = if a.thorough() { 6_000 } else { 300 };
+    let nwalks_more = if a.thorough() { 60_000 } else { 8_000 };
+    let mut deals: Vec<(u64, Vec<u8>)> = vec![];
+    for g in 0..nwalks_lines + nwalks_more {
+        let pool = if g % 4 == 3 {
+            let r0 = rng.below(all.len() as u64 / 4 - 2) as usize * 4;
+            all[r0..r0 + 12].iter().fold(0, |acc, c| acc | 1u64 << c)
+        } else {
+            full
+        };
+        let pocket = rng.cards(2, pool);
+        let mut board = cards_of(rng.cards(5, pool & !pocket));
+        for i in (1..board.len()).rev() {
+            board.swap(i, rng.below(i as u64 + 1) as usize);
+        }
+        deals.push((pocket, board));
+    }
+    let dealsr = &deals;
     let nthreads = 4usize;
     let seeds: Vec<Rng> = (0..nthreads).map(|_| rng.fork()).collect();
     let ctxr = &ctx;
@@ -568,6 +694,11 @@ fn main() {
                             seq_group(ctxr, &mut part, cards, t == 0 && g < ngroups_lines, t * 3 + g, &mut trng);
                         }
                     }
+                    for (g, (pocket, board)) in dealsr.iter().enumerate() {
+                        if g < nwalks_lines || g % nthreads == t {
+                            walk_group(ctxr, &mut part, *pocket, board, t == 0 && g < nwalks_lines, &mut trng);
+                        }
+                    }
                     part
                 })
             })
@@ -580,11 +711,13 @@ fn main() {
 
     run.exhaustive = false;
     run.rule = format!(
-        "deck={deck}: all {} pre-flop observations x all 24 relabelings (exhaustive, every image a correspondence line){} + {nrandom} random flop/turn/river observations (1/8 drawn from three adjacent ranks so that tied suits are frequent) x all 24 relabelings through the real permute/Isomorphism::from/is_canonical; correspondence lines: canon of every pre-flop and every fifth random observation + all 24 (pre-flop) or 2 random (post-flop) permute images; oracle on all 24 images of every observation; plus call-sequence streams: for {} random card sets of 5/6/7 cards every split into pocket+board is canonicalised back-to-back on one thread, then A,B,A / A,B,B,A patterns, repeated calls, interleavings with is_canonical and Permutation::from, an observation followed by a relabeling of it ({} of the sets as canon correspondence lines, those sets asked by 4 threads concurrently in rotated order), each answer judged for its own observation and against the other answers for the same observation; distinct_nontrivial = distinct canonical forms reached; exhaustive for pre-flop{}, sampled for the later streets",
+        "deck={deck}: all {} pre-flop observations x all 24 relabelings (exhaustive, every image a correspondence line){} + {nrandom} random flop/turn/river observations (1/8 drawn from three adjacent ranks so that tied suits are frequent) x all 24 relabelings through the real permute/Isomorphism::from/is_canonical; correspondence lines: canon of every pre-flop and every fifth random observation + all 24 (pre-flop) or 2 random (post-flop) permute images; oracle on all 24 images of every observation; plus call-sequence streams: for {} random card sets of 5/6/7 cards every split into pocket+board is canonicalised back-to-back on one thread, then A,B,A / A,B,B,A patterns, repeated calls, interleavings with is_canonical and Permutation::from, an observation followed by a relabeling of it ({} of the sets as canon correspondence lines, those sets asked by 4 threads concurrently in rotated order), each answer judged for its own observation and against the other answers for the same observation; street-walk streams over {} random deals ({} as correspondence lines, those by 4 threads at once): pre-flop, flop, turn, river of one hand back-to-back through Isomorphism::from, Permutation::from and is_canonical, the turn/river cards arriving in 6 (20 without lines) other orders, child-parent-child, one parent then two children, a relabeled copy of the walk, and every observation again right after an unrelated hand; distinct_nontrivial = distinct canonical forms reached; exhaustive for pre-flop{}, sampled for the later streets",
         all.len() * (all.len() - 1) / 2,
         if a.thorough() { " + all flop observations x 24 (exhaustive, oracle on all, 1/97 as correspondence lines)" } else { "" },
         ngroups_lines + ngroups_more,
         ngroups_lines,
+        nwalks_lines + nwalks_more,
+        nwalks_lines,
         if a.thorough() { " and flop" } else { "" },
     );
     run.finish();
